@@ -135,6 +135,36 @@ func (h *c12Harness) settle() bool {
 	return false
 }
 
+// heldWithoutTransfer names a receiver that holds a slot while no transfer runs for it and all
+// released transfer functions have returned ("" if there is none).
+func (h *c12Harness) heldWithoutTransfer() string {
+	h.mu.Lock()
+	rel := 0
+	byPeer := map[string]int{}
+	for _, in := range h.insts {
+		if in.released {
+			rel++
+		} else {
+			byPeer[in.peer]++
+		}
+	}
+	exited := h.exits == rel
+	h.mu.Unlock()
+	if !exited {
+		return ""
+	}
+	h.s.mu.Lock()
+	defer h.s.mu.Unlock()
+	var names []string
+	for p := range h.s.active {
+		if byPeer[p] == 0 {
+			names = append(names, p)
+		}
+	}
+	sort.Strings(names)
+	return strings.Join(names, ",")
+}
+
 func (h *c12Harness) apply(e c12Event) string {
 	ctx := context.Background()
 	switch e.Kind {
@@ -186,7 +216,18 @@ func (h *c12Harness) apply(e c12Event) string {
 		case "success":
 			in.release <- nil
 		case "failure":
-			in.release <- errors.New("transfer failed (injected)")
+			// the transfer code derives contexts of its own and wraps their errors: a failure may
+			// look like a cancellation although this run's context is alive
+			switch (e.Inst / 2) % 2 {
+			case 0:
+				in.release <- errors.New("transfer failed (injected)")
+			default:
+				if e.Inst%2 == 0 {
+					in.release <- fmt.Errorf("stream read failed (injected): %w", context.Canceled)
+				} else {
+					in.release <- fmt.Errorf("dial failed (injected): %w", context.DeadlineExceeded)
+				}
+			}
 		case "return":
 			in.release <- in.ctx.Err()
 		}
@@ -205,6 +246,24 @@ func (h *c12Harness) check(e c12Event) (string, string) {
 	settled := false
 	for i := 0; i < 12 && !settled; i++ { // up to ~6 s under heavy load
 		settled = h.settle()
+	}
+	if !settled {
+		// One way of never coming to rest is itself the violation: every transfer function
+		// that was told to return has returned, and yet a slot is held for a receiver no
+		// transfer is running for. A slow machine can show that for a moment (a started
+		// goroutine that has not reached the transfer function yet); it is only reported
+		// when it persists for another 20 s.
+		if held := h.heldWithoutTransfer(); held != "" {
+			deadline := time.Now().Add(20 * time.Second)
+			for time.Now().Before(deadline) && !settled {
+				settled = h.settle()
+			}
+			if !settled {
+				if again := h.heldWithoutTransfer(); again == held {
+					return "slot-held-without-running-transfer", fmt.Sprintf("after %s: a slot stays taken for receiver %s although every transfer function that was released has returned and none is running for it (26 s)", e, held)
+				}
+			}
+		}
 	}
 	if !settled {
 		// no verdict from a state that has not come to rest (slow machine): the invariants below
@@ -454,7 +513,7 @@ func TestVerifC12Exhaustive(t *testing.T) {
 		alphabet = append(alphabet, c12Event{Kind: "accept", Peer: p}, c12Event{Kind: "leave", Peer: p})
 	}
 	alphabet = append(alphabet, c12Event{Kind: "join", Peer: "a"}, c12Event{Kind: "success", Inst: 0}, c12Event{Kind: "failure", Inst: 0},
-		c12Event{Kind: "return", Inst: 0}, c12Event{Kind: "success", Inst: 1}, c12Event{Kind: "cleanup", Adv: 11 * time.Minute})
+		c12Event{Kind: "return", Inst: 0}, c12Event{Kind: "success", Inst: 1}, c12Event{Kind: "failure", Inst: 2}, c12Event{Kind: "cleanup", Adv: 11 * time.Minute})
 	maxLen := 3
 	if verifkit.Thorough() {
 		maxLen = 5
